@@ -27,7 +27,7 @@ def track (w : W) (a : String) : W :=
   if w.tracked.contains a then w else { w with tracked := sortBy (· < ·) (a :: w.tracked) }
 
 def trackAccount (e : Env) (w : W) (a : Account) : W :=
-  if a.type = tBase && a.bech32Ok then track w a.id
+  if a.type = tBase && a.bech32Ok then track w (canonAddr a.id)
   else if a.type = tModule then match e.modAddr? a.id with
     | some addr => track w addr
     | none => w
